@@ -231,6 +231,8 @@ pub struct RouterWorld {
     pub pad: usize,
     /// answer given to the random balancing strategy (member index modulo group size)
     pub pick_mode: u8,
+    /// the configuration uses the random strategy
+    pub pick_enabled: bool,
 }
 
 fn router_config(cfg: &Cfg) -> RouterConfig {
@@ -333,7 +335,9 @@ impl RouterWorld {
         }
         // the "random" balancing strategy asks the harness: the member index in force
         // (`Act::Pick`) answers every draw of this turn
-        rumqttd::verif::set_picks(Some(vec![self.pick_mode as usize; 4096]));
+        if self.pick_enabled {
+            rumqttd::verif::set_picks(Some(vec![self.pick_mode as usize; 4096]));
+        }
         let ran = self.with_router("run_inner", |r| r.verif_turn()).unwrap_or(false);
         self.turns += 1;
         if ran || !self.outbox.is_empty() {
@@ -946,6 +950,7 @@ impl World for RouterWorld {
             max_conn: cfg.max_conn,
             stale_disc: vec![],
             pick_mode: 0,
+            pick_enabled: cfg.strategy == 1,
             pad: cfg.pad,
         };
         for a in cfg.prelude.iter() {
